@@ -50,6 +50,11 @@ def menu(d):
     M["ok_plain"] = ("loads", H + "target g (shots=10)\nG | 0\nMeasureX | 0\nH(q0) | 1\n")
     M["ok_inc"] = ("loads", H + inc("sub.xbb") + "\nSub(x=2) | [3, 4]\nSub(x=3) | [5, 6]\n")
     M["ok_inc_file"] = ("load", os.path.join(d, "main_ok.xbb"))
+    # an include given by a relative path in a script passed as text: resolved against the process working directory, which
+    # every history (and every pristine run) sets to <d>/cwd0 at its start and which no load may change
+    M["ok_inc_relcwd"] = ("loads", H + 'include "sub.xbb"\n\nSub(x=1) | [4, 5]\n')
+    # empty brackets everywhere (what stands for "nothing" must not be one object handed to every program)
+    M["ok_empty_brackets"] = ("loads", "name a\nversion 1.0\ntarget g ()\ntype t ()\nVac() | 0\nK() | [1, 2]\nfor int i in 0:2\n    L() | i\n")
     M["ok_inc_dup"] = ("loads", H + inc("sub.xbb") + inc("sub.xbb") + "\nSub(x=2) | [3, 4]\n")
     M["ok_inc_nested_dup"] = ("load", os.path.join(d, "main_nested_dup.xbb"))
     # the same functions at numerically equal arguments of different types (the type decides the result)
@@ -127,6 +132,8 @@ def write_files(d):
         os.makedirs(os.path.join(d, proj), exist_ok=True)
         w(proj + "/sub.xbb", "name Sub\nversion 1.0\n\nA({x}, %s) | 0\nB | %s\n" % (val, modes))
         w(proj + "/main.xbb", H + 'include "sub.xbb"\n\nSub(x=1) | [2, 3]\n')
+    os.makedirs(os.path.join(d, "cwd0"), exist_ok=True)
+    w("cwd0/sub.xbb", "name Sub\nversion 1.0\n\nW({x}, 0.125) | 1\nB | [1, 0]\n")
     w("lib_dup.xbb", "name Lib\nversion 1.0\ninclude \"sub.xbb\"\n\nSub(x=5) | [0, 1]\nL | 0\n")
     w("main_nested_dup.xbb", H + 'include "lib_dup.xbb"\ninclude "sub.xbb"\n\nLib | [2, 3]\nSub(x=1) | [4, 5]\n')
     w("main_chain.xbb", H + 'include "lib_dup.xbb"\n\nLib | [2, 3]\nG | 0\n')
@@ -145,8 +152,12 @@ def outcome(ev, d=None):
         warnings.simplefilter("always")        # what a load reports through the warnings machinery is part of its outcome
         try:
             if kind == "load_rel":
+                prev = os.getcwd()
                 os.chdir(arg)
-                p = blackbird.load("main.xbb")
+                try:
+                    p = blackbird.load("main.xbb")
+                finally:
+                    os.chdir(prev)      # the harness changed the directory, the harness changes it back
             else:
                 p = blackbird.loads(arg) if kind == "loads" else blackbird.load(arg)
             c = ("OK", observe.prog_canon(p, exact=True))
@@ -176,6 +187,7 @@ def _exec_history(task):
     d = tempfile.mkdtemp(prefix="h", dir=d0)
     try:
         write_files(d)
+        os.chdir(os.path.join(d, "cwd0"))
         M = menu(d)
         out = []
         ver = "v1"
@@ -226,6 +238,7 @@ def _exec_sharing(task):
     d0, k1, k2 = task
     d = tempfile.mkdtemp(prefix="s", dir=d0)
     write_files(d)
+    os.chdir(os.path.join(d, "cwd0"))
     M = menu(d)
     _, _, p1 = outcome(M[k1], d)
     _, _, p2 = outcome(M[k2], d)
@@ -287,6 +300,7 @@ def pristine_outcome(d0, k, ver):
         write_files(d)
         open(os.path.join(d, "sub.xbb"), "w").write(SUB[ver])
         open(os.path.join(d, "brokenv.xbb"), "w").write(BROKENV[ver])
+        os.chdir(os.path.join(d, "cwd0"))
         dg, desc, _ = outcome(menu(d)[k], d)
         return [dg, desc]
     finally:
